@@ -85,6 +85,28 @@ def run(ctx):
             if x in sp or y in sp:
                 cmps.append((op, x, y))
     cases += [{"id": off + i, "kind": "cmp", "op": op, "xt": render(x), "yt": render(y)} for i, (op, x, y) in enumerate(cmps)]
+    # is/2 with a bound left-hand side: N is Expr, N the value of Expr in its own type (must succeed) and in the other numeric
+    # type (must fail: is/2 unifies, 2 and 2.0 are different terms); N given directly or through a variable bound before
+    offb = len(cases)
+    isb = []
+    for op, fn in (("+", lambda a, b: a + b), ("-", lambda a, b: a - b), ("*", lambda a, b: a * b // 4 if (a * b) % 4 == 0 else None)):
+        for x, y in rng.sample(list(itertools.product(nums, repeat=2)), ctx.pick(120, 400)):
+            q = fn(x["q"], y["q"])
+            if q is None:
+                continue
+            kind = "i" if x["k"] == "i" and y["k"] == "i" else "f"
+            if q == 0 and kind == "f":
+                continue                      # 0.0 vs -0.0 are different terms; the quarter grid of Arith.tla has one zero
+            e = {"op": op, "a": [x, y]}
+            isb.append((num(kind, q), e))
+            if q % 4 == 0:
+                isb.append((num("f" if kind == "i" else "i", q), e))
+            isb.append((num(kind, q + 4), e))
+    for x in nums:
+        isb.append((x, x))
+        if x["q"] % 4 == 0:
+            isb.append((num("f" if x["k"] == "i" else "i", x["q"]), x))
+    cases += [{"id": offb + i, "kind": "isb", "text": render(e), "nt": render(n), "via_var": bool(i % 2)} for i, (n, e) in enumerate(isb)]
     off2 = len(cases)
     bets = []
     for l in (-2, 0, 1, 3):
@@ -111,6 +133,8 @@ def run(ctx):
             text[c["id"]] = "X is %s" % c["text"]
         elif c["kind"] == "cmp":
             text[c["id"]] = "%s %s %s" % (c["xt"], c["op"], c["yt"])
+        elif c["kind"] == "isb":
+            text[c["id"]] = ("X = %s, X is %s" if c["via_var"] else "%s is %s") % (c["nt"], c["text"])
         else:
             text[c["id"]] = "between(%d,%d,%s)" % (c["l"], c["h"], c["x"] if c["xbound"] else "X")
         if o.get("skip"):
@@ -125,6 +149,9 @@ def run(ctx):
         elif c["kind"] == "cmp":
             op, x, y = cmps[c["id"] - off]
             send.append({"id": c["id"], "kind": "cmp", "op": op, "x": x, "y": y, "out": o["out"]})
+        elif c["kind"] == "isb":
+            n, e = isb[c["id"] - offb]
+            send.append({"id": c["id"], "kind": "isb", "n": n, "expr": e, "out": o["out"]})
         else:
             send.append({"id": c["id"], "kind": "between", "l": c["l"], "h": c["h"], "x": c["x"], "xbound": c["xbound"],
                          "ok": o["ok"], "sols": o["sols"]})
@@ -138,7 +165,7 @@ def run(ctx):
             o = outs[c["id"]]
             ctx.violation({"clause": j["why"], "functor": functor_of(cases[c["id"]], exprs, cmps, off)},
                           "%s : %s (implementation: %s)" % (text[c["id"]], j["why"], o.get("out", o.get("sols"))),
-                          {"case": cases[c["id"]], "expr": exprs[c["id"]] if c["kind"] == "is" else None})
+                          {"case": cases[c["id"]], "expr": exprs[c["id"]] if c["kind"] == "is" else c.get("expr"), "n": c.get("n")})
     n_insp, n_judged = run_inspect(ctx)
     ctx.sample({"case": text[10], "impl": outs[10].get("out")})
     ctx.sample({"case": text[len(exprs) - 1], "impl": outs[len(exprs) - 1].get("out")})
@@ -243,6 +270,8 @@ def functor_of(c, exprs, cmps, off):
         return exprs[c["id"]]["op"]
     if c["kind"] == "cmp":
         return cmps[c["id"] - off][0]
+    if c["kind"] == "isb":
+        return "is/bound"
     return "between"
 
 
@@ -278,4 +307,9 @@ def replay(ctx, path):
         print(j)
         if not j["ok"]:
             ctx.violation({"clause": j["why"], "functor": d["case"]["expr"]["op"]}, j["why"], d["case"])
+    elif c["kind"] == "isb":
+        j = tlc.judge_batch("JudgeArith", [{"id": 0, "kind": "isb", "n": d["case"]["n"], "expr": d["case"]["expr"], "out": o["out"]}], nproc=1)[0]
+        print(j)
+        if not j["ok"]:
+            ctx.violation({"clause": j["why"], "functor": "is/bound"}, j["why"], d["case"])
     ctx.write_evidence("exploration", {"evaluations": 1, "distinct_nontrivial": 0, "rule": "replay", "samples": [d["case"]]})
